@@ -110,7 +110,7 @@ class GenCheck(Check):
         gen = {"schemas": list(schemas), "opts": opts, "props": props, "only": only, "skip": skip, "hgen_extra": list(hgen_extra), "key": k, "extra_gen": [[ek, list(es), OPTSETS[eo]] for (ek, es, eo) in extra_gen],
                "libs": [os.path.basename(l) for l in (libs or [LIB])]}
         label = "%s[%s]" % (key, optname)
-        st = kw.pop("soft_trunc", True)
+        st = kw.pop("soft_trunc", "record")
         rep = self.run_pkg(self.mod, "./%s/gen/internal" % k, pkgdir, "internal", libs or [LIB], regex, params=params, label=label, gen=gen, soft_trunc=st, **kw)
         trunc = (rep or {}).get("_truncated") or []
         for step in ladder:
